@@ -1227,6 +1227,7 @@ class LcGen(GovGen):
         for v in ["adm0", "adm1", "adm2"]:
             self.ops.append(f"block bvm {v} gov Vote s:{ref} s:{ballot} s:r")
         self.ops.append(f"q prop {ref}")
+        self.ops.append(f"q obj rule {c}")
         for x in mine:
             self.observe(x)
         self.tags.add(f"rule-update-under-freeze:{ballot}")
@@ -1383,6 +1384,10 @@ def mon_c16(h, obs):
             new = m.group(1) if m else "unavailable"        # no record yet: the FSMs call that `unavailable`
             key = (kind, oid)
             old = status.get(key)
+            if kind == "rule" and m and "master=true" in o and new in ("bindable", "binding", "forbidden"):
+                # the rule an appchain's proofs are judged by is its master rule; a rule that is merely bindable (again) — a proposed rule
+                # the vote turned down, a former master — is no master rule
+                hits.append(Hit(f"C16/master-rule-not-available/{new}", f"the master rule of {oid} is reported with status {new}", detail=op))
             if key in once_forbidden and new != "forbidden" and kind != "rule":
                 hits.append(Hit(f"C16/logged-out-object-revived/{kind}", f"{kind} {oid} was forbidden and is now {new}", detail=op))
             if new == "forbidden":
